@@ -188,7 +188,7 @@ CLAIMS['C41'] = {
 
 CLAIMS['C34'] = {
   'text': 'Proof, for every graphics mode row of display/modes.py and video memory sizes 16K-256K: the address maps of CGAMemoryMapper/EGAMemoryMapper/Tandy6MemoryMapper (_get_coords, _coord_ok, num_pages) are the inverse of the reference hardware layout in both directions (every on-screen pixel group is backed by exactly one byte per plane; an address backs content iff its coordinates lie on an existing page); GraphicsMemoryMapper._walk_memory is verified by loop invariant for all addresses and all block lengths: an arbitrary iteration emits exactly the chunk (decode(addr+ofs), ofs, length) iff that position backs content, every unit i of the chunk decodes to the i-th pixel group to the right on the same scan line, chunks are non-empty, stay inside the block, the variant decreases and the walk ends at the end of the block - so block access maps every byte exactly as byte access does; Memory._get_memory_block/_set_memory_block split a block into the part inside the 128 KiB video area and single-byte accesses at the right addresses (address symbolic over 1 MiB, lengths 0,1,2,5).',
-  'note': _TB + 'Also proved: text modes (TextMemoryMapper.get_memory/set_memory by loop contract over all addresses and block lengths against a logging text page: byte i is the character/attribute of the cell at addr+i, 0/ignored where no content is backed); pixel packing (bytematrix.unpack_bytes/pack_bytes, leftmost pixel in the highest bits, mutually inverse); for the CGA and EGA mappers the step from one chunk of the walk to byte values (get_memory) and to pixel values (set_memory: exactly the chunk's pixels, on EGA exactly the bits of the writable planes selected by the plane mask; every plane of the mode writable) with real ByteMatrix row operations; the mapper is built by the real mode constructor. BOUNDED, not proved: block = bytes through a real ByteMatrix display (12/120 sampled blocks per mode), which is the only coverage of ByteMatrix slicing and of Tandy SCREEN 6 chunk-to-byte composition. Three defects found by these contracts were repaired in /repo (fix: commits 9fc0ff8a, 3336dfac, 0d9ac272).',
+  'note': _TB + 'Also proved: text modes (TextMemoryMapper.get_memory/set_memory by loop contract over all addresses and block lengths against a logging text page: byte i is the character/attribute of the cell at addr+i, 0/ignored where no content is backed); pixel packing (bytematrix.unpack_bytes/pack_bytes, leftmost pixel in the highest bits, mutually inverse); for the CGA and EGA mappers the step from one chunk of the walk to byte values (get_memory) and to pixel values (set_memory: exactly the pixels of the chunk, on EGA exactly the bits of the writable planes selected by the plane mask; every plane of the mode writable) with real ByteMatrix row operations; the mapper is built by the real mode constructor. BOUNDED, not proved: block = bytes through a real ByteMatrix display (12/120 sampled blocks per mode), which is the only coverage of ByteMatrix slicing and of Tandy SCREEN 6 chunk-to-byte composition. Three defects found by these contracts were repaired in /repo (fix: commits 9fc0ff8a, 3336dfac, 0d9ac272).',
 }
 
 CLAIMS['C33'] = {
